@@ -1152,7 +1152,8 @@ def _to_decimal(expression: exp.Expression, cast_node: type[exp.Cast]) -> exp.Ex
     scale = expressions[2] if len(expressions) > 2 else exp.Literal(this="0", is_string=False)
 
     return cast_node(
-        this=expressions[0],
+        # transform isn't applied to the children of a replaced node, so convert a nested call here
+        this=expressions[0].transform(to_decimal if cast_node is exp.Cast else try_to_decimal),
         to=exp.DataType(this=exp.DataType.Type.DECIMAL, expressions=[precision, scale], nested=False, prefix=False),
     )
 
@@ -1174,7 +1175,8 @@ def to_decimal(expression: exp.Expression) -> exp.Expression:
             scale = exp.Literal(this="0", is_string=False)
 
         return exp.Cast(
-            this=expression.this,
+            # transform isn't applied to the children of a replaced node, so convert a nested call here
+            this=expression.this.transform(to_decimal),
             to=exp.DataType(this=exp.DataType.Type.DECIMAL, expressions=[precision, scale], nested=False, prefix=False),
         )
 
@@ -1256,6 +1258,9 @@ def trim_cast_varchar(expression: exp.Expression) -> exp.Expression:
     operand = expression.this
     if isinstance(operand, exp.Cast) and operand.to.this in [exp.DataType.Type.VARCHAR, exp.DataType.Type.TEXT]:
         return expression
+
+    # transform isn't applied to the children of a replaced node, so cast the input of a nested TRIM here
+    operand = operand.transform(trim_cast_varchar)
 
     return exp.Trim(
         this=exp.Cast(this=operand, to=exp.DataType(this=exp.DataType.Type.VARCHAR, nested=False, prefix=False)),
